@@ -189,10 +189,51 @@ def build_emulator():
     return out, ""
 
 
-def harness_call(binary, sub, cases, timeout=600, extra_args=()):
+# Environment variables the pinned tree reads (the hook's descriptor, the logger's sudo ids).  Any OTHER variable that /repo's
+# non-test Go sources read is an ambient input of the code under test: every harness call is then repeated with those
+# variables set, and an answer that differs from the plain run replaces it (marked "_ambient_env") so that the oracles judge
+# it.  On the unchanged tree there is no such variable and nothing is repeated.
+PINNED_ENV_READS = {"STGUTG_VERIF_FD", "SUDO_UID", "SUDO_GID"}
+_ambient = None
+FORCE_ENV = {}          # set by the replay from a recorded "_ambient_env"
+
+
+def ambient_env_vars():
+    global _ambient
+    if _ambient is None:
+        import re
+        names = set()
+        for root, dirs, files in os.walk(REPO):
+            dirs[:] = [d for d in dirs if d not in (".git", "_seed")]
+            for f in files:
+                if f.endswith(".go") and not f.endswith("_test.go"):
+                    try:
+                        txt = open(os.path.join(root, f), errors="replace").read()
+                    except OSError:
+                        continue
+                    names.update(re.findall(r'os\.(?:Getenv|LookupEnv)\(\s*"([A-Za-z_][A-Za-z0-9_]*)"', txt))
+        _ambient = sorted(names - PINNED_ENV_READS)
+    return _ambient
+
+
+def harness_call(binary, sub, cases, timeout=600, extra_args=(), _env_extra=None):
     """Feed JSON lines to a harness sub-command; returns list of JSON results (one per case)."""
+    if _env_extra is None and not FORCE_ENV and ambient_env_vars():
+        plain = harness_call(binary, sub, cases, timeout, extra_args, _env_extra={})
+        extra = {n: os.path.join(WORK, "ambient-" + n) for n in ambient_env_vars()}
+        try:
+            amb = harness_call(binary, sub, cases, timeout, extra_args, _env_extra=extra)
+        except HarnessDied as e:
+            e.stderr = "(with the ambient environment %s) " % extra + (e.stderr or "")
+            raise
+        for i, (a, b) in enumerate(zip(plain, amb)):
+            if a != b and isinstance(b, dict):
+                plain[i] = dict(b, _ambient_env=extra)
+        return plain
     inp = "".join(json.dumps(c, separators=(",", ":")) + "\n" for c in cases)
     env = dict(os.environ)
+    env.update(FORCE_ENV)
+    env.update(_env_extra or {})
     d = scratch_dir("h")
     try:
         rc, out, err, dt = run([binary, sub, *extra_args], input=inp, timeout=timeout, cwd=d, env=env)
